@@ -25,7 +25,8 @@ RULE = ("Hypothesis draws sorted time axes (regular 5/10/30-day and irregular, 4
         "on isel(time=members) bit for bit; relabelling by an injective map leaves the output unchanged; one group == ungrouped; "
         "ValueError iff some (group's) window holds fewer than two steps. Non-trivial: begin/end not both default, or > 1 group; "
         "distinct by content hash. "
-        " Added after the fourth seeded round: Sub-check 'long': daily axes of more than 32767 steps, ungrouped and with 2-3 groups.")
+        " Added after the fourth seeded round: Sub-check 'long': daily axes of more than 32767 steps, ungrouped and with 2-3 groups. "
+        " Added after the fifth seeded round: Generic 'history' sub-check for spi in which one query differs from the previous one in a single argument (e.g. only the arrangement of the same group labels).")
 ASSUME = ["SciPy SPI reference of C07", "pandas date parsing of ISO dates"]
 
 T0 = dt.date(1999, 12, 27)
